@@ -1,5 +1,5 @@
 (* C13 — correspondence check and oracles for the serialisation of requirements and Any(). *)
-From KV Require Import C13.Model C12.Check.
+From KV Require Import C13.Model C13.Trunc C12.Check.
 Open Scope Z_scope.
 Open Scope string_scope.
 
@@ -9,7 +9,9 @@ Definition strip (e : enr) : nsr := (fst (fst e), snd (fst e)).
 Inductive case :=
 | CaseSer (probes : list string) (cs : list call) (hasobs : list bool) (undef : bool) (emitted : list enr)
 | CaseEmit (probes : list string) (hasobs : list bool) (undef : bool) (emitted : list enr)
-| CaseAny (cs : list call) (results : list (option string * bool)).
+| CaseAny (cs : list call) (results : list (option string * bool))
+(* InstanceTypes.Truncate: policy, minValues floors, maxItems, the options cheapest first; observed: kept names / error *)
+| CaseTrunc (strict : bool) (mins : list (string * nat)) (maxn : nat) (ordered : list itype) (obs : option (list string)).
 
 Definition nsr_eqb (a b : nsr) : bool := oper_eqb (fst a) (fst b) && set_eqb (snd a) (snd b).
 Fixpoint list_eqb {A} (eq : A -> A -> bool) (a b : list A) : bool :=
@@ -25,8 +27,30 @@ Definition emit_oracle (probes : list string) (hasobs : list bool) (undef : bool
   bools_eqb (map (fun p => nsrs_match (map strip emitted) (Some p)) probes) hasobs
   && Bool.eqb (nsrs_match (map strip emitted) None) undef.
 
+Definition names_eqb (a b : option (list string)) : bool :=
+  match a, b with
+  | None, None => true
+  | Some x, Some y => list_eqb String.eqb x y
+  | _, _ => false
+  end.
+
+(* oracle: what was kept is a subset of the options, at most maxItems, and under the strict policy still meets
+   every minValues floor *)
+Definition trunc_oracle (strict : bool) (mins : list (string * nat)) (maxn : nat) (ordered : list itype)
+    (obs : option (list string)) : bool :=
+  match obs with
+  | None => true
+  | Some names =>
+      forallb (fun n => existsb (fun i : itype => String.eqb n (fst i)) ordered) names
+      && (List.length names <=? maxn)%nat
+      && (negb strict || satisfies mins (filter (fun i : itype => mem (fst i) names) ordered))
+  end.
+
 Definition check_case (c : case) : list string :=
   match c with
+  | CaseTrunc strict mins maxn ordered obs =>
+      tag (names_eqb (option_map (map fst) (truncate strict mins maxn ordered)) obs) "corr:truncate"
+      ++ tag (trunc_oracle strict mins maxn ordered obs) "oracle:truncated-options-meet-minvalues"
   | CaseSer probes cs hasobs undef emitted =>
       let r := build cs in
       tag (list_eqb nsr_eqb (to_nsrs r) (map strip emitted)
